@@ -118,7 +118,17 @@ def vhdx_diff(rng, ctx, depth: int = 2, sector_size: int = 512, parent_config: s
         if not is_base:
             pname = names[-1]
             cfg = parent_config if level == depth - 1 else "relative"
+            if cfg == "nested-decoy" and level != 1:
+                cfg = "both-decoy"  # moving a parent that has a parent of its own would break its own reference
             rel = f".\\{pname}"
+
+            def decoy(path):
+                # a well-formed disk of the same geometry and other content where a wrong lookup order would find it
+                path.parent.mkdir(parents=True, exist_ok=True)
+                dsf, _, _ = wvhdx.build(rng, block_size=bs, sector_size=sector_size, nblocks=n, tail_cut_sectors=tail, states=[6] * n,
+                                        placement="seq", tag=rng.getrandbits(48), checksums=False)
+                dsf.write_to(path)
+
             absw = str(subdir / pname).replace("/", "\\")
             if cfg == "relative":
                 ents = [("parent_linkage", "{83ed0ec1-24c8-49a6-a959-5e4bd1288015}"), ("relative_path", rel), ("absolute_win32_path", "C:\\nowhere\\" + pname)]
@@ -126,6 +136,18 @@ def vhdx_diff(rng, ctx, depth: int = 2, sector_size: int = 512, parent_config: s
                 ents = [("parent_linkage", "{83ed0ec1-24c8-49a6-a959-5e4bd1288015}"), ("relative_path", ".\\moved\\" + pname), ("absolute_win32_path", absw)]
             elif cfg == "subdir":
                 ents = [("relative_path", "..\\disks\\" + pname), ("absolute_win32_path", "C:\\nowhere\\" + pname), ("parent_linkage", "{x}")]
+            elif cfg == "both-decoy":
+                # both paths resolve, to different files: the relative path is the one to use (the absolute one is a stale
+                # location from before the folder was copied)
+                stale = d / "original location" / pname
+                decoy(stale)
+                ents = [("parent_linkage", "{83ed0ec1-24c8-49a6-a959-5e4bd1288015}"), ("relative_path", rel), ("absolute_win32_path", str(stale).replace("/", "\\"))]
+            elif cfg == "nested-decoy":
+                # the parent lives in a sub-directory named by the relative path; an unrelated disk of the same name sits next to the child
+                (subdir / "base é").mkdir()
+                (subdir / pname).rename(subdir / "base é" / pname)
+                decoy(subdir / pname)
+                ents = [("parent_linkage", "{83ed0ec1-24c8-49a6-a959-5e4bd1288015}"), ("relative_path", ".\\base é\\" + pname), ("absolute_win32_path", "C:\\nowhere\\" + pname)]
             elif cfg == "missing":
                 ents = [("parent_linkage", "{83ed0ec1}"), ("relative_path", ".\\gone\\" + pname), ("absolute_win32_path", "C:\\nowhere\\" + pname)]
             else:
@@ -415,12 +437,20 @@ def qcow2_chain(rng, ctx, depth: int = 2, ext: bool = False, raw_base: str | Non
         kinds = [rng.choice(alpha) for _ in range(ncl)]
         view = wq.make_view(rng, size=size, cluster_bits=cb, kinds=kinds, extl2=ext, tag=rng.getrandbits(48))
         has_below = below is not None or (optout and level == 0)
-        img, _, meta = wq.build(rng, cluster_bits=cb, size=size, views=[view], version=3, extl2=ext, placement="shuffle",
-                                backing_name=(b"lower.qcow2" if has_below else None), tuned_frac=0.1)
+        # some layers keep their clusters in an external data file (with or without the optional name extension)
+        external = rng.random() < 0.3
+        if external:
+            # raw layout: guest cluster g at data-file offset g * cluster size (so guest cluster 0 sits at offset 0)
+            if kinds[0] not in "NS":
+                kinds[0] = "S" if ext else "N"
+                view = wq.make_view(rng, size=size, cluster_bits=cb, kinds=kinds, extl2=ext, tag=rng.getrandbits(48))
+        img, dataf, meta = wq.build(rng, cluster_bits=cb, size=size, views=[view], version=3, extl2=ext, placement="seq" if external else "shuffle",
+                                    backing_name=(b"lower.qcow2" if has_below else None), tuned_frac=0.1, external_data=external,
+                                    data_file_name=(b"layer.raw" if external and rng.random() < 0.5 else None))
         backing = below
         if optout and level == 0:
             backing = ALLOW_NO_BACKING_FILE
-        q = QCow2(as_handle(img.to_bytes()), backing_file=backing)
+        q = QCow2(as_handle(img.to_bytes()), backing_file=backing, data_file=as_handle(dataf.to_bytes()) if external else None)
         layers.insert(0, view.layer)
         below = q
     return Opened(below, Model(size, layers), info={"depth": depth, "ext": ext, "raw_base": raw_base, "optout": optout, "cb": cb})
@@ -475,7 +505,7 @@ def vdi_parent(rng, ctx, depth: int = 2) -> Opened:
 def open_chain(kind: str, rng, ctx) -> Opened:
     """Random representative of each layered stream kind (used by the history check)."""
     if kind == "vhdx-diff":
-        return vhdx_diff(rng, ctx, depth=rng.choice([2, 3]), sector_size=512, parent_config=rng.choice(["relative", "absolute", "subdir"]))
+        return vhdx_diff(rng, ctx, depth=rng.choice([2, 3]), sector_size=512, parent_config=rng.choice(["relative", "absolute", "subdir", "both-decoy", "nested-decoy"]))
     if kind == "vmdk-delta":
         return vmdk_delta(rng, ctx, depth=rng.choice([2, 3]), parent_config=rng.choice(["samedir", "sibling", "windows"]),
                           child_kind=rng.choice(["descriptor", "embedded", "multi"]))
